@@ -114,6 +114,15 @@ let unew toks =
              (full_hex p.up_query))
   | _ -> failwith "unew args"
 
+(* uhostunix <bytes> : coap_host_is_unix_domain *)
+let uhostunix toks =
+  match toks with
+  | [b] ->
+      (match uri_host_is_unix_chk uri_UNIX_K (bytes_of_tok b) with
+       | UOob -> "OOB"
+       | UOk r -> if r then "unix=1" else "unix=0")
+  | _ -> failwith "uhostunix args"
+
 (* ugetproxy <bytes> : coap_get_uri_path with a Proxy-Uri option = path of coap_split_proxy_uri *)
 let ugetproxy toks =
   match toks with
@@ -161,5 +170,5 @@ let spec_norm toks = show_optl (uri_norm (List.map bytes_of_tok toks))
 
 let () =
   register "upath" upath; register "uquery" uquery; register "upol" upol; register "uqol" uqol;
-  register "ugetp" (uget false); register "ugetq" (uget true); register "uspl" uspl; register "uinto" uinto; register "unew" unew; register "ugetproxy" ugetproxy;
+  register "ugetp" (uget false); register "ugetq" (uget true); register "uspl" uspl; register "uinto" uinto; register "unew" unew; register "uhostunix" uhostunix; register "ugetproxy" ugetproxy;
   register "spec_path" spec_path; register "spec_query" spec_query; register "spec_norm" spec_norm; register "spec_pq" spec_pq
